@@ -13,7 +13,7 @@ DRAFTS = (3, 4, 6, 7)
 NAMES = ["a", "", "a/b", "a~b", "~01", "~1", "%", "%25", "a b", "é", "0", "01", "#", "?", '"', "\\", "~0", "/", "~",
          "\U0001F600", "x.y", "$ref", "definitions", "a%2Fb", "xs:int", "a:b/c"]
 ARRS = ["local", "rootid", "rootidhash", "absref", "relid", "storeabs", "storerel", "storeownid", "chain", "arrayelem",
-        "nestedabs", "nestedrel", "mixed", "shadow", "pctsep", "claimed", "twobases"]
+        "nestedabs", "nestedrel", "mixed", "shadow", "pctsep", "claimed", "twobases", "mixedchain"]
 _CLS = None
 _TR = None
 
@@ -85,13 +85,15 @@ def build(d, T, pos, name, arr):
     if arr == "nestedrel":
         return ({idk: ROOT, wrap: [first(tref("defs.json" + dref), idk, "http://x.invalid/n/b.json")]},
                 {"http://x.invalid/n/defs.json": {"definitions": {name: sub}}})
-    if arr == "mixed":
+    if arr in ("mixed", "mixedchain"):
         other = "http://x.invalid/other.json"
         guard = {"disallow": [{"$ref": other + frag_of("definitions", "tt")}]} if d == 3 else {"not": {"$ref": other + frag_of("definitions", "tt")}}
         S = dict(guard)
         S.update(tref(dref))
         S["definitions"] = {name: sub}
         defs = {"tt": {"type": "null"}}
+        if arr == "mixedchain":     # the guard's target is itself only a reference
+            defs = {"tt": {"$ref": frag_of("definitions", "uu")}, "uu": {"type": "null"}}
         defs.setdefault(name, {})
         return S, {other: {"definitions": defs}}
     if arr == "shadow":
@@ -182,7 +184,7 @@ def replay_one(task):
     if ex.get("arr") == "twobases":
         S = share_refs(S, {})
     store = {dec_str(m["u"]): dec(m["doc"]) for m in ex["more"]}
-    safe = ex.get("arr") in ("local", "storeabs", "storerel", "storeownid", "chain", "arrayelem", "nestedrel", "mixed", "pctsep", "claimed", "otherid", "twobases")
+    safe = ex.get("arr") in ("local", "storeabs", "storerel", "storeownid", "chain", "arrayelem", "nestedrel", "mixed", "mixedchain", "pctsep", "claimed", "otherid", "twobases")
     got, events = run_real(d, S, store, _INST, via_handler=(len(repr(S)) % 2 == 0), foreign_base=(safe and len(repr(S)) % 3 == 0))
     got_inl, _ = run_real(d, inl, {}, _INST)
     probs = []
@@ -218,10 +220,10 @@ def record_one(task):
     p = rng.choice(pos)
     name = rng.choice(NAMES)
     arr = rng.choice(ARRS)
-    if arr == "mixed" and (("disallow" if d == 3 else "not") in T or not p):
+    if arr in ("mixed", "mixedchain") and (("disallow" if d == 3 else "not") in T or not p):
         arr = "local"        # (at the root the guard would be a sibling of $ref, which is ignored)
     S, store = build(d, T, list(p), name, arr)
-    if arr == "mixed":      # the inlining of the guarded schema carries the guard too
+    if arr in ("mixed", "mixedchain"):      # the inlining of the guarded schema carries the guard too
         guard = {"disallow": [{"type": "null"}]} if d == 3 else {"not": {"type": "null"}}
         T = dict(guard, **T)
     base = S.get("id" if d <= 4 else "$id", "")
@@ -262,9 +264,9 @@ def main(args):
     _setup()
     ck.rule = ("scenarios = final states of the Extract machine spec/mc/MC_Ref: 6 reference-free base schemas per draft x every "
                "subschema position x %d definition names (incl. '', a/b, a~b, ~01, ~1, %%, %%25, 'a b', e-acute, 0, 01, #, ?, "
-               "quote, backslash) x 21 base-URI/store arrangements (local; absolute root id with/without '#'; absolute "
+               "quote, backslash) x 22 base-URI/store arrangements (local; absolute root id with/without '#'; absolute "
                "reference string; relative root id; store document reached by absolute / relative reference, with own id; "
-               "two-reference chain; array element; nested id with absolute / relative reference; a cross-document reference under not/disallow before a local one; the other drafts' id keyword on the way (must be inert); recursion through '#' compared with a 4-fold unfolding; urn base; a store document under the root's id; percent-encoded separators; a document claiming another's URL; the empty reference with siblings; ONE shared {\"$ref\"} object under two nested bases designating two documents) x 13 "
+               "two-reference chain; array element; nested id with absolute / relative reference; a cross-document reference under not/disallow before a local one, its target a plain schema or itself a reference; the other drafts' id keyword on the way (must be inert); recursion through '#' compared with a 4-fold unfolding; urn base; a store document under the root's id; percent-encoded separators; a document claiming another's URL; the empty reference with siblings; ONE shared {\"$ref\"} object under two nested bases designating two documents) x 13 "
                "instances; TLC checks Transparent and SameAsOriginal on each and exports the expected located errors, "
                "replayed on real validators (other documents in the store or, alternately, behind a retrieval handler; tracing resolver) and compared with the real errors of the inlined "
                "schema. Random: extraction at random positions of random deep schemas, judged by TLC (Trace_Errors C02 "
